@@ -121,6 +121,10 @@ def run(ctx):
     if checks <= 0 and not ctx.replay:
         ctx.violation("c12-no-model-checks", "the model side of the check did not run (driver rc=%s): %s" % (rc2, mlog[-600:]),
                       {"driver_output": mlog[-3000:]}, found_input=False)
+    mb = re.search(r"BUILDS (\d+)", mlog)
+    if checks > 0 and not ctx.replay and summ.get("cases", 0) >= 40 and (not mb or int(mb.group(1)) == 0):
+        ctx.violation("c12-no-builder-replays", "no op log of a bottom-up built network was replayed by the builder model",
+                      {"driver_output": mlog[-2000:]}, found_input=False)
     known_sigs = {k["signature"] for k in ctx.known_open}
     new_fails = [f for f in summ["fails"] if f[0] not in known_sigs]
     if (mism != 0 or wff != 0) and not new_fails:
@@ -148,6 +152,10 @@ def run(ctx):
         "budget_exhausted": bool(summ["hist"].get("budget-exhausted")) or "BUDGET exhausted" in mlog,
         "hypotheses_on_api_built_networks": (lambda md: {"wfb_true": summ.get("cases", 0) - sum(1 for l in mlog.split("\n") if l.startswith("WFFAIL orig")),
                                                           "in_domain_true": int(md.group(1)), "in_domain_false": int(md.group(2))} if md else {})(re.search(r"DOMAIN in (\d+) out (\d+)", mlog)),
+        "builder_replays": (lambda mb: {"networks_built_bottom_up_with_op_log": int(mb.group(1)) if mb else 0,
+                                        "what": "calls logged by the flat generator replayed by the extracted builder model (coq/C12/Builder.v build); "
+                                                "the built network must equal the observed one (mismatches are counted in model_mismatches); "
+                                                "theorem built_wf: every such network satisfies wfb"})(re.search(r"BUILDS (\d+)", mlog)),
         "property_predicate_failures": sorted(s for s, _, _ in summ["fails"]),
         "samples": summ["samples"][:2] or ["(no sample)"],
         "exhaustive": False,
